@@ -293,20 +293,20 @@ class Names:
                 return s
 
 
-def restyle(p, t, rng, names=None):
+def restyle(p, t, rng, names=None, spread=1):
     """Randomly switch constructor sub-patterns to labelled / spread syntax (printer only;
     the matched set is unchanged) and optionally wrap sub-patterns in `as`."""
     k = p[0]
     if k in ("_", "v", "int", "bytes"):
         return p
     if k == "as":
-        return ("as", restyle(p[1], t, rng, names), p[2])
+        return ("as", restyle(p[1], t, rng, names, spread), p[2])
     if k in ("t", "p"):
-        return (k, tuple(restyle(s, a, rng, names) for s, a in zip(p[1], t.args)))
+        return (k, tuple(restyle(s, a, rng, names, spread) for s, a in zip(p[1], t.args)))
     if k == "l":
-        return ("l", tuple(restyle(s, t.args[0], rng, names) for s in p[1]), p[2])
+        return ("l", tuple(restyle(s, t.args[0], rng, names, spread) for s in p[1]), p[2])
     c, fts = T.ctors(t)[p[1]]
-    subs = tuple(restyle(s, ft, rng, names) for s, ft in zip(p[2], fts))
+    subs = tuple(restyle(s, ft, rng, names, spread) for s, ft in zip(p[2], fts))
     if not fts:
         return ("c", p[1], subs, ("pos",))
     n = len(fts)
@@ -314,13 +314,13 @@ def restyle(p, t, rng, names=None):
     k_keep = n
     while k_keep > 0 and subs[k_keep - 1] == WILD:
         k_keep -= 1
-    choices = ["pos"]
+    choices = ["pos", "pos"]
     if k_keep < n:
-        choices += ["pos_spread", "pos_spread"]
+        choices += ["pos_spread"] * spread
     if c.is_record:
         choices += ["rec", "rec"]
         if any(s == WILD for s in subs):
-            choices += ["rec_spread", "rec_spread"]
+            choices += ["rec_spread"] * spread
     ch = rng.pick(choices)
     if ch == "pos":
         style = ("pos",)
@@ -382,11 +382,11 @@ def name_tails(p, t, rng, names, prob=(1, 2)):
     return p
 
 
-def decorate(p, t, rng, bind=(1, 2)):
+def decorate(p, t, rng, bind=(1, 2), spread=1):
     """Turn a var-free structural pattern into a 'surface' pattern: labelled/spread
     constructor syntax, variables on leaves, named list tails, `as` bindings, `_name` discards."""
     names = Names()
-    p = restyle(p, t, rng, names)
+    p = restyle(p, t, rng, names, spread)
     p = name_tails(p, t, rng, names)
     # leaves: keep `..`-covered wildcards as plain wildcards
     for path, _ in wild_positions(p, t):
